@@ -15,6 +15,8 @@ if prop.startswith("S"):
     wt = f"/tmp/wt4-{prop}"; out = f"/tmp/seedout4-{prop}"
 if prop.startswith("U"):
     wt = f"/tmp/wt5-{prop}"; out = f"/tmp/seedout5-{prop}"
+if prop.startswith("V"):
+    wt = f"/tmp/wt8-{prop}"; out = f"/tmp/seedout8-{prop}"
 env = dict(os.environ, GOFLAGS="-mod=mod", GOPROXY="off", GOSUMDB="off", GOTOOLCHAIN="local")
 def run(cmd, cwd=wt):
     p = subprocess.run(cmd, cwd=cwd, shell=True, env=env, capture_output=True, text=True, errors="replace")
